@@ -205,3 +205,21 @@ def rank_mirror(tensor):
     if len(levels) > len(ranks):
         return f"tree deeper ({len(levels)}) than rank list ({len(ranks)})"
     return ""
+
+
+def rank_paths(tensor):
+    """canonical rank lists: every fiber registered in rank i by its coordinate path from the root,
+    None for a registered fiber that is not (or no longer) part of the tree"""
+    Fiber = ft().Fiber
+    root = tensor.getRoot()
+    if not isinstance(root, Fiber):
+        return []
+    path_of = {id(root): []}
+    stack = [(root, [])]
+    while stack:
+        f, path = stack.pop()
+        for c, p in zip(f.coords, f.payloads):
+            if isinstance(p, Fiber):
+                path_of[id(p)] = path + [_coord(c)]
+                stack.append((p, path + [_coord(c)]))
+    return [[path_of.get(id(f)) for f in r.getFibers()] for r in tensor.ranks]
